@@ -48,7 +48,7 @@ func init() {
 			"Redis delivery itself (PUBLISH -> subscriber) is replaced by an in-process RESP server",
 		},
 		Stages: []Stage{
-			{Name: "announce", Pkg: "./pkg/station/lib", Run: "^TestVerifC10(Announce|Lifetime|ShutdownBusy)$", Drivers: []string{"lib"}, Exports: []string{"cdtls", "lib"},
+			{Name: "announce", Pkg: "./pkg/station/lib", Run: "^TestVerifC10(Announce|Lifetime|ShutdownBusy|ShutdownOverlap)$", Drivers: []string{"lib"}, Exports: []string{"cdtls", "lib"},
 				TimeoutQ: 10 * time.Minute, TimeoutT: 40 * time.Minute},
 			// own child process (the station's redis client is created once per process) and own network namespace (the
 			// real initRedisClient dials the fixed localhost:6379): nothing listens when the first announcement is due
